@@ -211,7 +211,7 @@ def two_threads_k2(same: bool, cap: int, ttl: int, d0: int, d1: int, first: int,
     return _verdict(s, cache, clock, out, nonces, cap, ttl)
 
 
-@cond(q=60, t=3000, tiers=("thorough",), engine="coop", replay=_replay_3, encoded=ENCODED, bound="3 threads, 2 preemptions, cap 1..2, ttl and clocks symbolic")
+@cond(q=60, t=4500, tiers=("thorough",), engine="coop", replay=_replay_3, encoded=ENCODED, bound="3 threads, 2 preemptions, cap 1..2, ttl and clocks symbolic")
 def three_threads_k2(same01: bool, same02: bool, cap: int, ttl: int, d0: int, d1: int, d2: int, first: int, p1: int, t1: int, p2: int, t2: int) -> bool:
     """
     pre: 1 <= cap <= 2 and ttl > 0 and d0 >= 0 and d1 >= 0 and d2 >= 0
